@@ -86,9 +86,11 @@ func overlapPhase(rep *kit.Report, root string) {
 		{"identity-client", "GET", "", "hdr:Content-Type=text/plain;status:200;write:300xA;write:300xB"},
 		{"head", "HEAD", "gzip", "hdr:Content-Type=text/plain;status:200;write:300xA"},
 		{"panic-after-write", "GET", "gzip", "hdr:Content-Type=text/plain;status:200;write:300xA;panic"},
+		{"not-modified", "GET", "gzip", "hdr:Content-Type=text/plain;status:304"},
+		{"no-content", "GET", "gzip", "status:204"},
 	}
 	// prologues: requests served one after the other before the overlapping pair
-	proMenu := [][]int{nil, {0}, {2}, {3}, {5}, {6}, {2, 2}, {1, 2}}
+	proMenu := [][]int{nil, {0}, {2}, {3}, {5}, {6}, {2, 2}, {1, 2}, {7}, {8}}
 	pairs := [][2]int{{0, 0}, {0, 1}, {1, 1}, {0, 2}, {1, 4}, {0, 5}, {2, 2}, {1, 6}}
 	blocks := []string{"gzip", "gzip {\n\t\tlevel 1\n\t}"}
 	bound := 2
